@@ -110,6 +110,13 @@ Theorem c13_prepared_again c s ds dn idx t p v :
     pcache s' = pcache s /\ keys (mw s') = keys (mw s) /\ lvl s' = lvl s.
 Proof. exact (do_prepared_hit c s ds dn idx t p v). Qed.
 
+(* WriteJSON on the same invariant: NextWriter(TextMessage) + one Write of the encoder's output
+   [enc] (encoding/json is an oracle) + Close, as the harness op 7 runs it *)
+Theorem c13_write_json c s ds dn enc : 15 <= blen c < big -> SInv c s ds dn -> lenN enc < big ->
+  exists s' ds', step_op c [] s (SL [SZ 7; SB enc; SL []; SL []]) = Ok (s', eOK)
+                 /\ SInv c s' ds' (dn ++ [(1, false, enc)]).
+Proof. exact (write_json_ok c s ds dn enc). Qed.
+
 (* what SInv means for an observer of the wire *)
 Theorem c13_invariant_meaning c s ds dn : SInv c s ds dn ->
   exists fs, rfc_parse (wire_of s) = Some fs /\ rfc_valid (srv c) false fs = true /\ messages fs = Some dn.
@@ -207,6 +214,7 @@ Print Assumptions c13_wire_valid_any_header.
 Print Assumptions c13_prepared_frame.
 Print Assumptions c13_prepared_first.
 Print Assumptions c13_prepared_again.
+Print Assumptions c13_write_json.
 Print Assumptions c13_invariant_meaning.
 Print Assumptions c13_wire_valid_compressed.
 Print Assumptions c13_roundtrip_compressed.
